@@ -46,9 +46,9 @@ pub fn render(unit: usize, depth: usize, bs: &[Block], out: &mut String) {
     for b in bs {
         match b {
             Block::Line(t) => { out.push_str(&" ".repeat(unit * depth)); out.push_str(t); out.push('\n'); }
-            Block::Loop { var, start, end, incl, body } => {
+            Block::Loop { var, start, end, incl, svar, evar, body } => {
                 out.push_str(&" ".repeat(unit * depth));
-                out.push_str(&header(var, *start, *end, *incl));
+                out.push_str(&header(var, *start, *end, *incl, svar, evar));
                 out.push('\n');
                 render(unit, depth + 1, body, out);
             }
@@ -85,8 +85,10 @@ pub fn tokens(bs: &[Block], out: &mut Vec<String>) {
     for b in bs {
         match b {
             Block::Line(t) => out.push(format!("L:{}", enc_tok(t))),
-            Block::Loop { var, start, end, incl, body } => {
-                out.push(format!("F:{}:{}:{}:{}", enc_tok(var), start, end, if *incl { "i" } else { "x" }));
+            Block::Loop { var, start, end, incl, svar, evar, body } => {
+                let s = match svar { Some(x) => format!("{{{}}}", x), None => start.to_string() };
+                let e = match evar { Some(x) => format!("{{{}}}", x), None => end.to_string() };
+                out.push(format!("F:{}:{}:{}:{}", enc_tok(var), s, e, if *incl { "i" } else { "x" }));
                 tokens(body, out);
                 out.push("E".to_string());
             }
@@ -324,6 +326,18 @@ pub fn run(ctx: &mut Ctx, _name: &str) {
             Block::Line("context row{r}".into()) ] },
     ];
     run_h(ctx, 4, &w);
+    // a range that runs backwards stands for no copies; an inner bound that is the outer placeholder
+    ctx.directive("new witnesses2");
+    run_h(ctx, 4, &[
+        Block::Loop { var: "i".into(), start: 5, end: 2, incl: false, svar: None, evar: None, body: vec![Block::Line("stream R{i} = T".into())] },
+        Block::Line("stream Z1 = T".into()),
+    ]);
+    ctx.directive("new witnesses3");
+    run_h(ctx, 4, &[
+        Block::Loop { var: "r".into(), start: 1, end: 3, incl: false, svar: None, evar: None, body: vec![
+            Block::Loop { var: "c".into(), start: 0, end: 0, incl: false, svar: None, evar: Some("r".into()), body: vec![Block::Line("context t{r}_{c}".into())] } ] },
+        Block::Line("stream Z2 = T".into()),
+    ]);
     let nh = if ctx.thorough { 6000 } else { 500 };
     for it in 0..nh {
         ctx.directive(&format!("new h{}", it));
@@ -337,7 +351,7 @@ pub fn run(ctx: &mut Ctx, _name: &str) {
     for d in [8usize, 9, 10, 11] {
         ctx.directive(&format!("new deep{}", d));
         let mut b = vec![Block::Line("context deep{v0}".into())];
-        for k in (0..d).rev() { b = vec![Block::Loop { var: format!("v{}", k), start: 0, end: if k == 0 { 2 } else { 1 }, incl: false, body: b }]; }
+        for k in (0..d).rev() { b = vec![Block::Loop { var: format!("v{}", k), start: 0, end: if k == 0 { 2 } else { 1 }, incl: false, svar: None, evar: None, body: b }]; }
         run_h(ctx, 1, &b);
     }
     if ctx.thorough { exhaustive_small(ctx); }
